@@ -5097,7 +5097,8 @@ func reduceBinaryExprDurationLHS(op Token, lhs *DurationLiteral, rhs Expr, loc *
 		case MUL:
 			return &DurationLiteral{Val: lhs.Val * time.Duration(rhs.Val)}
 		case DIV:
-			if rhs.Val == 0 {
+			// The divisor is truncated to a whole number, so anything below 1 divides by zero.
+			if time.Duration(rhs.Val) == 0 {
 				return &DurationLiteral{Val: 0}
 			}
 			return &DurationLiteral{Val: lhs.Val / time.Duration(rhs.Val)}
